@@ -9,3 +9,5 @@ func (nc *netConn) RemoteAddr() net.Addr {
 func (nc *netConn) LocalAddr() net.Addr {
 	return websocketAddr{}
 }
+
+func (nc *netConn) releaseOnClose() {}
